@@ -1,4 +1,5 @@
 import AranyaV.Proofs.TypeFrag
+import AranyaV.Proofs.TypeExh
 import AranyaV.Proofs.FoldBind
 namespace AranyaV.Lang
 open AranyaV.Gen.Lang
@@ -310,25 +311,43 @@ theorem snd_mv {cx : LCtx} {p : Program} {n : Nat} (ih : Snd cx p n) :
           exact ih.mv rt sc _ rest s1 o1 b1 env log v hf.2 hr hrt henv
         · simp only [if_true, ROk])
 
+theorem litVal_binding : ∀ {pe : Expr} {lit : Val}, litVal pe = some lit → bindingOf pe = none := by
+  intro pe lit h
+  cases pe <;> first | rfl | (simp [litVal] at h; done) | skip
+  all_goals (rename_i e; cases e <;> first | rfl | (simp [litVal] at h))
+
+/-- a literal pattern without struct parts evaluates to its value (or runs out of fuel) -/
+theorem litVal_eval {p : Program} : ∀ (n : Nat) (pe : Expr) (lit : Val) (env : Env) (log : Log), litVal pe = some lit →
+    evalExpr p n env log pe = .oof ∨ evalExpr p n env log pe = .val lit log
+  | 0, _, _, _, _, _ => by simp [evalExpr]
+  | n + 1, pe, lit, env, log, h => by
+    cases pe <;> simp only [litVal, Option.some.injEq, Option.map_eq_some_iff] at h
+    all_goals (try (cases h; done))
+    all_goals (try (subst h; right; simp [evalExpr]; done))
+    all_goals (
+      obtain ⟨w, hw, rfl⟩ := h
+      simp only [evalExpr]
+      rcases litVal_eval n _ w env log hw with h1 | h1 <;> rw [h1] <;> simp)
+
 /-- a certainly-hitting arm never answers "no match" -/
 theorem mv_hit {p : Program} {v : Val} : ∀ (vs : List Expr) (n : Nat) (env : Env) (log : Log), ArmHits v (.values vs) →
     ∀ l, matchVals p n env log v vs ≠ .val false l
   | [], _, _, _, h, _ => by
     simp only [ArmHits] at h
-    rcases h with ⟨pe, _, _, hm, _⟩ | ⟨hm, _⟩ <;> cases hm
+    rcases h with ⟨pe, _, _, hm, _⟩ | ⟨pe, _, hm, _⟩ <;> cases hm
   | pe :: rest, 0, _, _, _, _ => by simp [matchVals]
   | pe :: rest, n + 1, env, log, h, l => by
-    have hrest : (∀ w x, bindingOf pe = some (w, x) → isWrap w v = false) → ¬(pe = .none ∧ v = .none) →
-        ArmHits v (.values rest) := by
+    have hrest : (∀ w x, bindingOf pe = some (w, x) → isWrap w v = false) →
+        (∀ lit, litVal pe = some lit → v.beq lit = false) → ArmHits v (.values rest) := by
       intro h1 h2
       simp only [ArmHits] at h ⊢
-      rcases h with ⟨pe', w, x, hm, hb, hw⟩ | ⟨hm, hv⟩
+      rcases h with ⟨pe', w, x, hm, hb, hw⟩ | ⟨pe', lit, hm, hl, hq⟩
       · rcases List.mem_cons.mp hm with rfl | hm'
         · rw [h1 w x hb] at hw; cases hw
         · exact Or.inl ⟨pe', w, x, hm', hb, hw⟩
-      · rcases List.mem_cons.mp hm with heq | hm'
-        · exact absurd ⟨heq.symm, hv⟩ h2
-        · exact Or.inr ⟨hm', hv⟩
+      · rcases List.mem_cons.mp hm with rfl | hm'
+        · rw [h2 lit hl] at hq; cases hq
+        · exact Or.inr ⟨pe', lit, hm', hl, hq⟩
     simp only [matchVals]
     cases hb : bindingOf pe with
     | some wx =>
@@ -338,7 +357,7 @@ theorem mv_hit {p : Program} {v : Val} : ∀ (vs : List Expr) (n : Nat) (env : E
       · simp only [Bool.false_eq_true, if_false]
         apply mv_hit rest n env log (hrest ?_ ?_)
         · intro w' x' hb'; rw [hb] at hb'; cases hb'; exact hw
-        · rintro ⟨rfl, _⟩; simp [bindingOf] at hb
+        · intro lit hl; rw [litVal_binding hl] at hb; cases hb
       · simp
     | none =>
       simp only
@@ -349,13 +368,10 @@ theorem mv_hit {p : Program} {v : Val} : ∀ (vs : List Expr) (n : Nat) (env : E
         · simp only [Bool.false_eq_true, if_false]
           apply mv_hit rest n env l1 (hrest ?_ ?_)
           · intro w' x' hb'; rw [hb] at hb'; cases hb'
-          · rintro ⟨rfl, rfl⟩
-            cases n with
-            | zero => simp [evalExpr] at hr
-            | succ m =>
-              simp only [evalExpr, Res.val.injEq] at hr
-              obtain ⟨rfl, _⟩ := hr
-              simp [Val.beq] at hq
+          · intro lit' hl
+            rcases litVal_eval (p := p) n pe lit' env log hl with h1 | h1
+            · rw [h1] at hr; cases hr
+            · rw [h1] at hr; cases hr; exact hq
         · simp
       | ret _ _ => simp
       | exit _ _ => simp
@@ -364,13 +380,13 @@ theorem mv_hit {p : Program} {v : Val} : ∀ (vs : List Expr) (n : Nat) (env : E
       | oof => simp
 
 theorem snd_sel {cx : LCtx} {p : Program} {n : Nat} (ih : Snd cx p n) :
-    ∀ rt sc st pats pats' env log v k, PatsLow (cx.withRet rt) sc st pats pats' → Total v pats' →
+    ∀ rt sc st stF pats pats' env log v k, PatsLow (cx.withRet rt) sc st pats pats' stF → Total v pats' →
     rt.neverFree = true → EnvOk p sc env →
     ROk (fun j => ∃ i pat, j = k + i ∧ pats'[i]? = some pat ∧ BindOk v pat) (FitV p rt) (selectArm p (n + 1) env log v pats' k) := by
-  intro rt sc st pats pats' env log v k hlow htot hrt henv
+  intro rt sc st stF pats pats' env log v k hlow htot hrt henv
   cases hlow with
   | nil => obtain ⟨pat, hm, _⟩ := htot; cases hm
-  | @cons _ st' pat pat' bs rest rest' hpat hfp hrest =>
+  | @cons _ st' _ pat pat' bs rest rest' hpat hfp hrest =>
     cases pat with
     | default =>
       simp only [lowerPat, Option.some.injEq, Prod.mk.injEq] at hpat
@@ -404,7 +420,7 @@ theorem snd_sel {cx : LCtx} {p : Program} {n : Nat} (ih : Snd cx p n) :
         rename_i b l
         cases b
         · simp only []
-          exact hshift _ (ih.sel rt sc s1 rest rest' env l v (k + 1) hrest
+          exact hshift _ (ih.sel rt sc s1 stF rest rest' env l v (k + 1) hrest
             (htot' (fun hh => mv_hit vs' n env log hh l hmv)) hrt henv)
         · exact ⟨0, .values vs', rfl, rfl, by intro w x hwx; rw [hfb] at hwx; cases hwx⟩
       · cases n with
@@ -420,14 +436,14 @@ theorem snd_sel {cx : LCtx} {p : Program} {n : Nat} (ih : Snd cx p n) :
           · simp only [hw, Bool.false_eq_true, if_false]
             have hno : ¬ ArmHits v (.values [pe]) := by
               simp only [ArmHits, List.mem_singleton]
-              rintro (⟨pe', w', x', rfl, hb', hw'⟩ | ⟨rfl, _⟩)
+              rintro (⟨pe', w', x', rfl, hb', hw'⟩ | ⟨pe', lit, rfl, hl, _⟩)
               · rw [hbo] at hb'; cases hb'; exact hw hw'
-              · simp [bindingOf] at hbo
+              · rw [litVal_binding hl] at hbo; cases hbo
             cases m with
             | zero => simp [matchVals, ROk]
             | succ m' =>
               simp only [matchVals]
-              exact hshift _ (ih.sel rt sc s1 rest rest' env log v (k + 1) hrest (htot' hno) hrt henv)
+              exact hshift _ (ih.sel rt sc s1 stF rest rest' env log v (k + 1) hrest (htot' hno) hrt henv)
 
 /-! ## match arms -/
 
@@ -496,10 +512,10 @@ theorem bindArm_ok {cx : LCtx} {p : Program} (hG : GOk cx p) {sc sc' : Scopes} {
 
 theorem armsE_patsLow {cx : LCtx} {sc : Scopes} : ∀ (arms : List (Pat × Expr)) (st : Ty) (ty : Option Ty) (stF : Ty)
     (tyF : Option Ty) (arms' : List (Pat × Expr)), lowerArmsE cx sc st ty arms = some (stF, tyF, arms') →
-    fragArmsE arms = true → PatsLow cx sc st (arms.map (·.1)) (arms'.map (·.1))
+    fragArmsE arms = true → PatsLow cx sc st (arms.map (·.1)) (arms'.map (·.1)) stF
   | [], st, ty, stF, tyF, arms', h, _ => by
     simp only [lowerArmsE, Option.some.injEq, Prod.mk.injEq] at h
-    obtain ⟨_, _, rfl⟩ := h; exact .nil _
+    obtain ⟨rfl, _, rfl⟩ := h; exact .nil _
   | (pat, body) :: rest, st, ty, stF, tyF, arms', h, hf => by
     simp only [lowerArmsE] at h
     repeat' (split at h)
@@ -508,16 +524,16 @@ theorem armsE_patsLow {cx : LCtx} {sc : Scopes} : ∀ (arms : List (Pat × Expr)
       simp only [Option.map_eq_some_iff] at h
       obtain ⟨⟨s1, r1, o1⟩, hr, hq⟩ := h
       simp only [Prod.mk.injEq] at hq
-      obtain ⟨_, _, rfl⟩ := hq
+      obtain ⟨rfl, _, rfl⟩ := hq
       simp only [fragArmsE, Bool.and_eq_true] at hf
       exact .cons ‹lowerPat cx sc st pat = some _› hf.1.1 (armsE_patsLow rest _ _ _ _ _ hr hf.2))
 
 theorem armsS_patsLow {cx : LCtx} {sc : Scopes} : ∀ (arms : List (Pat × List Stmt)) (st stF : Ty)
     (arms' : List (Pat × List Stmt)), lowerArmsS cx sc st arms = some (stF, arms') →
-    fragArmsS arms = true → PatsLow cx sc st (arms.map (·.1)) (arms'.map (·.1))
+    fragArmsS arms = true → PatsLow cx sc st (arms.map (·.1)) (arms'.map (·.1)) stF
   | [], st, stF, arms', h, _ => by
     simp only [lowerArmsS, Option.some.injEq, Prod.mk.injEq] at h
-    obtain ⟨_, rfl⟩ := h; exact .nil _
+    obtain ⟨rfl, rfl⟩ := h; exact .nil _
   | (pat, body) :: rest, st, stF, arms', h, hf => by
     simp only [lowerArmsS] at h
     repeat' (split at h)
@@ -526,7 +542,7 @@ theorem armsS_patsLow {cx : LCtx} {sc : Scopes} : ∀ (arms : List (Pat × List 
       simp only [Option.map_eq_some_iff] at h
       obtain ⟨⟨s1, o1⟩, hr, hq⟩ := h
       simp only [Prod.mk.injEq] at hq
-      obtain ⟨_, rfl⟩ := hq
+      obtain ⟨rfl, rfl⟩ := hq
       simp only [fragArmsS, Bool.and_eq_true] at hf
       exact .cons ‹lowerPat cx sc st pat = some _› hf.1.1 (armsS_patsLow rest _ _ _ hr hf.2))
 
@@ -676,10 +692,10 @@ theorem endsDefaultP_mem : ∀ (pats : List Pat), endsDefaultP pats = true → P
     simp only [endsDefaultP] at h
     exact List.mem_cons_of_mem _ (endsDefaultP_mem (b :: rest) h)
 
-theorem patsLow_default {cx : LCtx} {sc : Scopes} : ∀ {st : Ty} {pats pats' : List Pat}, PatsLow cx sc st pats pats' →
+theorem patsLow_default {cx : LCtx} {sc : Scopes} : ∀ {st stF : Ty} {pats pats' : List Pat}, PatsLow cx sc st pats pats' stF →
     Pat.default ∈ pats → Pat.default ∈ pats'
-  | _, _, _, .nil _, h => by cases h
-  | _, _, _, .cons (pat := pat) hpat _ hrest, h => by
+  | _, _, _, _, .nil _, h => by cases h
+  | _, _, _, _, .cons (pat := pat) hpat _ hrest, h => by
     rcases List.mem_cons.mp h with heq | h'
     · subst heq
       simp only [lowerPat, Option.some.injEq, Prod.mk.injEq] at hpat
@@ -687,12 +703,12 @@ theorem patsLow_default {cx : LCtx} {sc : Scopes} : ∀ {st : Ty} {pats pats' : 
       exact List.mem_cons_self ..
     · exact List.mem_cons_of_mem _ (patsLow_default hrest h')
 
-theorem patsLow_mem {cx : LCtx} {p : Program} {sc : Scopes} {vs : List Expr} : ∀ {st : Ty} {pats pats' : List Pat},
-    PatsLow cx sc st pats pats' → Pat.values vs ∈ pats →
+theorem patsLow_mem {cx : LCtx} {p : Program} {sc : Scopes} {vs : List Expr} : ∀ {st stF : Ty} {pats pats' : List Pat},
+    PatsLow cx sc st pats pats' stF → Pat.values vs ∈ pats →
     ∃ sti sti' vs' bs, Pat.values vs' ∈ pats' ∧ lowerPatValsE cx sc sti vs = some (sti', vs', bs) ∧
       fragPat (.values vs) = true ∧ ∀ v, Fit p v st → Fit p v sti
-  | _, _, _, .nil _, h => by cases h
-  | st, _, _, .cons (pat := pat) hpat hfp hrest, h => by
+  | _, _, _, _, .nil _, h => by cases h
+  | st, _, _, _, .cons (pat := pat) hpat hfp hrest, h => by
     rcases List.mem_cons.mp h with heq | h'
     · subst heq
       simp only [lowerPat, Option.map_eq_some_iff] at hpat
@@ -782,8 +798,8 @@ theorem fit_result_cases {p : Program} {v : Val} {a b : Ty} (h : Fit p v (.resul
   · exact Or.inl ⟨_, rfl⟩
   · exact Or.inr ⟨_, rfl⟩
 
-theorem total_of_frag {cx : LCtx} {p : Program} {sc : Scopes} {st : Ty} {pats pats' : List Pat}
-    (hlow : PatsLow cx sc st pats pats') (htot : patsTotal pats = true) {v : Val} (hv : Fit p v st) : Total v pats' := by
+theorem total_of_patsTotal {cx : LCtx} {p : Program} {sc : Scopes} {st stF : Ty} {pats pats' : List Pat}
+    (hlow : PatsLow cx sc st pats pats' stF) (htot : patsTotal pats = true) {v : Val} (hv : Fit p v st) : Total v pats' := by
   simp only [patsTotal, Bool.or_eq_true, Bool.and_eq_true, List.any_eq_true] at htot
   rcases htot with (hd | ⟨⟨p1, hm1, hn⟩, ⟨p2, hm2, hs⟩⟩) | ⟨⟨p1, hm1, hok⟩, ⟨p2, hm2, herr⟩⟩
   · exact ⟨.default, patsLow_default hlow (endsDefaultP_mem pats hd), trivial⟩
@@ -803,7 +819,7 @@ theorem total_of_frag {cx : LCtx} {p : Program} {sc : Scopes} {st : Ty} {pats pa
       cases e <;> simp at hq
       exact he
     rcases fit_optional (hmono2 v hv) with rfl | ⟨w, rfl, _⟩
-    · exact ⟨_, hmem1, Or.inr ⟨patVals_none_mem _ _ _ _ _ hl1 hnone, rfl⟩⟩
+    · exact ⟨_, hmem1, Or.inr ⟨.none, .none, patVals_none_mem _ _ _ _ _ hl1 hnone, rfl, rfl⟩⟩
     · exact ⟨_, hmem2, Or.inl ⟨pe, .Some, x, List.mem_singleton.mpr rfl, hbo, rfl⟩⟩
   · cases p1 with
     | default => simp [hasBindPat] at hok
@@ -820,6 +836,115 @@ theorem total_of_frag {cx : LCtx} {p : Program} {sc : Scopes} {st : Ty} {pats pa
     · exact ⟨_, hmem1, Or.inl ⟨pe1, .Ok, x1, List.mem_singleton.mpr rfl, hbo1, rfl⟩⟩
     · exact ⟨_, hmem2, Or.inl ⟨pe2, .Err, x2, List.mem_singleton.mpr rfl, hbo2, rfl⟩⟩
 
+theorem patsLow_mono {cx : LCtx} {p : Program} {sc : Scopes} : ∀ {st stF : Ty} {pats pats' : List Pat},
+    PatsLow cx sc st pats pats' stF → ∀ v, Fit p v st → Fit p v stF
+  | _, _, _, _, .nil _, _, h => h
+  | _, _, _, _, .cons hpat hfp hrest, v, h => patsLow_mono hrest v (lowerPat_mono hpat hfp v h)
+
+theorem any_default_flat : ∀ (pats : List Pat), pats.all flatPat = true →
+    (pats.any fun | .default => true | _ => false) = false
+  | [], _ => rfl
+  | .default :: _, h => by simp [flatPat] at h
+  | .values _ :: r, h => by
+    simp only [List.all_cons, Bool.and_eq_true] at h
+    simp [any_default_flat r h.2]
+
+/-- **the compiler's exhaustiveness check is sound** for a match without default arm over `bool`
+or an enum: pairwise distinct patterns (`scanPats`), at least as many as the scrutinee type has
+values (`missingDefault`), hence every well-formed scrutinee value is hit by some arm -/
+theorem total_flat {cx : LCtx} {p : Program} {sc : Scopes} {st stF : Ty} {pats pats' : List Pat}
+    (hE : cx.enums = p.enums) (hEnd : ∀ q ∈ p.enums, q.2.Nodup)
+    (hlow : PatsLow cx sc st pats pats' stF) (hflat : patsFlat pats = true) {scan : Scan}
+    (hscan : scanPats {} pats = some scan)
+    (hmiss : missingDefault cx stF scan.all (pats.any fun | .default => true | _ => false) = false)
+    {v : Val} (hv : Fit p v stF) : Total v pats' := by
+  simp only [patsFlat, Bool.and_eq_true, Bool.not_eq_true', List.isEmpty_eq_false_iff] at hflat
+  obtain ⟨hf, hne⟩ := hflat
+  obtain ⟨hall, hd⟩ := scanPats_flat pats {} scan hf hscan
+  simp only [List.nil_append] at hall
+  have hdist : Distinct scan.all := hd (by simp [Distinct])
+  rw [any_default_flat pats hf, hall] at hmiss
+  rw [hall] at hdist
+  rcases patsLow_flat hlow hf with ⟨h0, _, _⟩ | ⟨_, hok, _⟩
+  · exact absurd h0 hne
+  · -- the type of the scrutinee, from the first pattern
+    obtain ⟨x0, hx0⟩ := List.exists_mem_of_ne_nil _ hne
+    obtain ⟨x0', hl0⟩ := allLitOK_src hok hx0
+    have hit : ∀ x x' : Expr, x ∈ flattenPats pats → LitOK cx stF x x' → ∀ lit, litVal x' = some lit → v.beq lit = true →
+        Total v pats' := by
+      intro x x' hx hl lit hlv hbq
+      obtain ⟨x'', hx'', hl''⟩ := allLitOK_mem hok hx
+      have hxx : x'' = x' := by
+        rcases hl with ⟨_, b, rfl, rfl⟩ | ⟨e, q, var, y, i, hT, hq, hi, rfl, rfl⟩
+        · rcases hl'' with ⟨_, b', hb, rfl⟩ | ⟨_, _, _, _, _, _, _, _, hb, _⟩
+          · cases hb; rfl
+          · cases hb
+        · rcases hl'' with ⟨_, b', hb, _⟩ | ⟨e2, q2, var2, y2, i2, hT2, hq2, hi2, hb, rfl⟩
+          · cases hb
+          · cases hb; rw [hT] at hT2; cases hT2; rw [hq] at hq2; cases hq2; rw [hi] at hi2; cases hi2; rfl
+      subst hxx
+      obtain ⟨vs', hvs', hxm⟩ := flatten_mem hx''
+      exact ⟨_, hvs', Or.inr ⟨x'', lit, hxm, hlv, hbq⟩⟩
+    rcases hl0 with ⟨hT, _⟩ | ⟨e, q, var0, y0, i0, hT, hq, _⟩
+    · -- bool
+      subst hT
+      obtain ⟨b, rfl⟩ := fit_bool hv
+      have hlen : 2 ≤ (flattenPats pats).length := by
+        simp [missingDefault, cardinality] at hmiss; omega
+      have hsh : ∀ x ∈ flattenPats pats, ∃ b, x = Expr.bool b := by
+        intro x hx
+        obtain ⟨x', hl⟩ := allLitOK_src hok hx
+        rcases hl with ⟨_, b, rfl, _⟩ | ⟨_, _, _, _, _, hT, _⟩
+        · exact ⟨b, rfl⟩
+        · cases hT
+      have hmem := bool_cover hsh hdist hlen b
+      exact hit (.bool b) (.bool b) hmem (Or.inl ⟨rfl, b, rfl, rfl⟩) (.bool b) rfl (by simp [Val.beq])
+    · -- enum `e`
+      subst hT
+      have hlen : q.2.length ≤ (flattenPats pats).length := by
+        simp [missingDefault, cardinality, hq] at hmiss; omega
+      have hsh : ∀ x ∈ flattenPats pats, ∃ var y, x = Expr.enumRef e var y ∧ var ∈ q.2 := by
+        intro x hx
+        obtain ⟨x', hl⟩ := allLitOK_src hok hx
+        rcases hl with ⟨hT, _⟩ | ⟨e2, q2, var, y, i, hT, hq2, hi, rfl, _⟩
+        · cases hT
+        · cases hT; rw [hq] at hq2; cases hq2
+          exact ⟨var, y, rfl, List.mem_of_getElem? (indexOf_spec hi)⟩
+      -- the scrutinee value
+      obtain ⟨hv1, hv2⟩ := hv
+      obtain ⟨iv, rfl⟩ : ∃ iv, v = .enum e iv := by
+        cases v <;> simp [Val.fitsType] at hv1
+        subst hv1; exact ⟨_, rfl⟩
+      simp only [Val.wf] at hv2
+      obtain ⟨q', hq', h0, h1⟩ := hv2
+      rw [← hE, hq] at hq'; cases hq'
+      have hqm : q ∈ p.enums := by rw [← hE]; exact List.mem_of_find?_eq_some hq
+      have hnd := hEnd q hqm
+      have hlt : iv.toNat < q.2.length := by omega
+      obtain ⟨y, hmem⟩ := enum_cover hsh hdist hlen (q.2[iv.toNat]) (List.getElem_mem hlt)
+      obtain ⟨x', hx', hl⟩ := allLitOK_mem hok hmem
+      rcases hl with ⟨hT, _⟩ | ⟨e2, q2, var, y2, i, hT, hq2, hi, hb, rfl⟩
+      · cases hT
+      · cases hT; rw [hq] at hq2; cases hq2; cases hb
+        have hidx : i = iv.toNat := by
+          have h1 := indexOf_spec hi
+          have h2 : q.2[iv.toNat]? = some q.2[iv.toNat] := List.getElem?_eq_getElem hlt
+          exact ((List.getElem?_inj hlt hnd).mp (h2.trans h1.symm)).symm
+        refine hit _ _ hmem (Or.inr ⟨e, q, _, y, i, rfl, hq, hi, rfl, rfl⟩) (.enum e (Int.ofNat i)) rfl ?_
+        subst hidx
+        simp only [Val.beq, beq_self_eq_true, Bool.true_and, beq_iff_eq]
+        first | exact (Int.toNat_of_nonneg h0).symm | exact Int.toNat_of_nonneg h0
+
+theorem total_of_frag {cx : LCtx} {p : Program} {sc : Scopes} {st stF : Ty} {pats pats' : List Pat}
+    (hE : cx.enums = p.enums) (hEnd : ∀ q ∈ p.enums, q.2.Nodup)
+    (hlow : PatsLow cx sc st pats pats' stF) (htot : (patsTotal pats || patsFlat pats) = true) {scan : Scan}
+    (hscan : scanPats {} pats = some scan)
+    (hmiss : ¬ missingDefault cx stF scan.all (pats.any fun | .default => true | _ => false) = true)
+    {v : Val} (hv : Fit p v st) : Total v pats' := by
+  rcases Bool.or_eq_true _ _ ▸ htot with h | h
+  · exact total_of_patsTotal hlow h hv
+  · exact total_flat hE hEnd hlow h hscan (by simpa using hmiss) (patsLow_mono hlow v hv)
+
 theorem patsOfE_map (arms : List (Pat × Expr)) : patsOfE arms = arms.map (·.1) := by
   induction arms with
   | nil => rfl
@@ -828,6 +953,93 @@ theorem patsOfS_map (arms : List (Pat × List Stmt)) : patsOfS arms = arms.map (
   induction arms with
   | nil => rfl
   | cons a rest ih => obtain ⟨pt, e⟩ := a; simp [patsOfS, ih]
+
+
+/-! ## struct literals with `...source` -/
+
+theorem fits_refl : ∀ (t : Ty), t.fits t = true := by
+  intro t
+  induction t with
+  | optional a ih => simpa [Ty.fits] using ih
+  | result a b iha ihb => simp [Ty.fits, iha, ihb]
+  | _ => simp [Ty.fits]
+
+theorem lowerFields_append {cx : LCtx} {sc : Scopes} {d : List (Nat × Ty)} : ∀ {a a' b b' : List (Nat × Expr)},
+    lowerFields cx sc d a = some a' → lowerFields cx sc d b = some b' → lowerFields cx sc d (a ++ b) = some (a' ++ b')
+  | [], a', b, b', ha, hb => by
+    simp only [lowerFields, Option.some.injEq] at ha; subst ha; simpa using hb
+  | (k, e) :: a, a', b, b', ha, hb => by
+    simp only [lowerFields] at ha
+    simp only [List.cons_append, lowerFields]
+    repeat' (split at ha)
+    all_goals (try (cases ha; done))
+    simp only [Option.map_eq_some_iff] at ha
+    obtain ⟨r, hr, rfl⟩ := ha
+    rename_i k' ft hfind _ e1 t1 he hfit
+    simp only [hfind, he, hfit, if_true, lowerFields_append hr hb, Option.map_some, List.cons_append]
+
+theorem fragFields_append : ∀ (a b : List (Nat × Expr)), fragFields (a ++ b) = (fragFields a && fragFields b)
+  | [], b => by simp [fragFields]
+  | (k, e) :: a, b => by simp [fragFields, fragFields_append a b, Bool.and_assoc]
+
+/-- the fields appended for the `...source`s are themselves well-typed field initialisers -/
+theorem expandSources_lower {cx : LCtx} {sc : Scopes} {d : List (Nat × Ty)} {given : List Nat}
+    (hnd : ∀ n sd, cx.structDef n = some sd → (sd.map (·.1)).Nodup) :
+    ∀ (srcs seen : List Nat) (extra : List (Nat × Expr × Ty)), expandSources cx sc d given srcs seen = some extra →
+      lowerFields cx sc d (extra.map (fun x => (x.1, x.2.1))) = some (extra.map (fun x => (x.1, x.2.1))) ∧
+      fragFields (extra.map (fun x => (x.1, x.2.1))) = true
+  | [], seen, extra, h => by
+    simp only [expandSources, Option.some.injEq] at h; subst h; simp [lowerFields, fragFields]
+  | src :: rest, seen, extra, h => by
+    simp only [expandSources] at h
+    split at h
+    rotate_left
+    · cases h
+    rename_i sn hget
+    split at h
+    · cases h
+    rename_i sdef hsdef
+    split at h
+    · cases h
+    split at h
+    · cases h
+    rename_i hall
+    split at h
+    rotate_left
+    · cases h
+    rename_i more hmore
+    simp only [Option.some.injEq] at h; subst h
+    obtain ⟨ih1, ih2⟩ := expandSources_lower hnd rest _ more hmore
+    simp only [Bool.not_eq_true', Bool.not_eq_false] at hall
+    have hsnd := hnd sn sdef hsdef
+    -- the fields taken from this source
+    have key : ∀ (todo : List (Nat × Ty)), (∀ f ∈ todo, f ∈ sdef) →
+        (todo.all fun f => match d.find? (·.1 == f.1) with
+            | Option.some (_, bt) => bt.matchesT f.2
+            | Option.none => false) = true →
+        lowerFields cx sc d (todo.map fun f => (f.1, Expr.dot (.var src) f.1)) = some (todo.map fun f => (f.1, Expr.dot (.var src) f.1)) ∧
+        fragFields (todo.map fun f => (f.1, Expr.dot (.var src) f.1)) = true := by
+      intro todo
+      induction todo with
+      | nil => intro _ _; simp [lowerFields, fragFields]
+      | cons f todo iht =>
+        intro hsub hok
+        simp only [List.all_cons, Bool.and_eq_true] at hok
+        obtain ⟨h1, h2⟩ := iht (fun g hg => hsub g (List.mem_cons_of_mem _ hg)) hok.2
+        have hf := hsub f (List.mem_cons_self ..)
+        have hfind : sdef.find? (·.1 == f.1) = some f := findTy_of_nodup hsnd hf
+        cases hdf : d.find? (·.1 == f.1) with
+        | none => rw [hdf] at hok; simp at hok
+        | some q =>
+          obtain ⟨k', bt⟩ := q
+          rw [hdf] at hok
+          have hbt : bt = f.2 := matchesT_eq hok.1
+          subst hbt
+          simp only [List.map_cons, lowerFields, hdf, lowerExpr, hget, Option.map_some, hsdef, hfind, fits_refl, if_true, h1,
+            fragFields, fragE, h2, Bool.and_self, and_self]
+    have hk := key (sdef.filter fun f => !given.contains f.1) (fun f hf => (List.mem_filter.mp hf).1) hall
+    simp only [List.map_append, List.map_map, Function.comp_def]
+    exact ⟨lowerFields_append hk.1 ih1, by rw [fragFields_append, hk.2, ih2]; rfl⟩
 
 
 theorem snd_e {cx : LCtx} {p : Program} {n : Nat} (hC : Ctx cx p) (ih : Snd cx p n) :
@@ -843,8 +1055,13 @@ theorem snd_e {cx : LCtx} {p : Program} {n : Nat} (hC : Ctx cx p) (ih : Snd cx p
   | enumRef name variant val =>
     inv_low hl
     simp only [Option.map_eq_some_iff, Prod.mk.injEq] at hl
-    obtain ⟨i, _, rfl, rfl⟩ := hl
-    simp [evalExpr, ROk, FitV, Fit, Val.fitsType, Val.wf]
+    obtain ⟨i, hi, rfl, rfl⟩ := hl
+    rename_i k vs hfind
+    simp only [evalExpr, ROk, FitV]
+    have hlt : i < vs.length := by
+      have := indexOf_spec hi
+      exact (List.getElem?_eq_some_iff.mp this).1
+    exact fit_enum_mk (q := (k, vs)) (by rw [← hC.hE]; exact hfind) (Int.ofNat_zero_le i) (Int.ofNat_lt.mpr hlt)
   | var x =>
     simp only [lowerExpr, Option.map_eq_some_iff, Prod.mk.injEq] at hl
     obtain ⟨t', hg, rfl, rfl⟩ := hl
@@ -1085,26 +1302,35 @@ theorem snd_e {cx : LCtx} {p : Program} {n : Nat} (hC : Ctx cx p) (ih : Snd cx p
     simp only [hw]
     exact ⟨hwfit, wfFields_get hwf hw⟩
   | struct name fields sources =>
-    simp only [fragE, Bool.and_eq_true, List.isEmpty_iff] at hf
-    obtain ⟨rfl, hff⟩ := hf
+    simp only [fragE] at hf
+    -- common tail: a lowered field list `low` that covers the definition
+    have tail : ∀ (d : List (Nat × Ty)) (srcF low : List (Nat × Expr)), (cx.withRet rt).structDef name = some d →
+        fragFields srcF = true → lowerFields (cx.withRet rt) sc d srcF = some low →
+        (∀ q ∈ d, q.1 ∈ low.map (·.1)) →
+        ROk (FitV p (.struct name)) (FitV p rt) (evalExpr p (n + 1) env log (.struct name low sources)) := by
+      intro d srcF low hd hff hlf hcov
+      have hpd := hC.hS name d hd
+      have hnd := hC.hSnd name d hpd
+      have ihf := ih.flds rt sc d srcF low env log name [] hff hlf (hC.hSnf name d hpd) hrt henv
+        ⟨by simp [wfFields], by intro k v h; simp [getField] at h⟩
+      simp only [evalExpr, hpd]
+      res_cases ihf of evalFields _ _ _ _ _ _ _
+      obtain ⟨fsF, rfl, hinv, hpres⟩ := ihf
+      refine ⟨by simp [Val.fitsType], ?_⟩
+      simp only [Val.wf]
+      refine ⟨⟨d, hpd, ?_⟩, hinv.1⟩
+      intro q hq
+      have hsome := hpres q.1 (Or.inr (hcov q hq))
+      obtain ⟨w, hw⟩ := Option.isSome_iff_exists.mp hsome
+      exact ⟨w, hw, hinv.2 q.1 w hw q (findTy_of_nodup hnd hq)⟩
     inv_low hl
-    all_goals (try (simp at *; done))
-    simp only [Option.some.injEq, Prod.mk.injEq] at hl
-    obtain ⟨rfl, rfl⟩ := hl
-    rename_i d hd _ hchk _ fs' hlf
-    simp only [Bool.or_eq_true, not_or, Bool.not_eq_true, Bool.not_eq_eq_eq_not, Bool.not_true, Bool.not_false] at hchk
-    have hpd := hC.hS name d hd
-    have hnd := hC.hSnd name d hpd
-    have ihf := ih.flds rt sc d fields fs' env log name [] hff hlf (hC.hSnf name d hpd) hrt henv
-      ⟨by simp [wfFields], by intro k v h; simp [getField] at h⟩
-    simp only [evalExpr, hpd]
-    res_cases ihf of evalFields _ _ _ _ _ _ _
-    obtain ⟨fsF, rfl, hinv, hpres⟩ := ihf
-    refine ⟨by simp [Val.fitsType], ?_⟩
-    simp only [Val.wf]
-    refine ⟨⟨d, hpd, ?_⟩, hinv.1⟩
-    intro q hq
-    have hq1 : q.1 ∈ fs'.map (·.1) := by
+    · -- no sources
+      simp only [Option.some.injEq, Prod.mk.injEq] at hl
+      obtain ⟨rfl, rfl⟩ := hl
+      rename_i d hd _ hchk _ fs' hlf
+      simp only [Bool.or_eq_true, not_or, Bool.not_eq_true, Bool.not_eq_eq_eq_not, Bool.not_true, Bool.not_false] at hchk
+      refine tail d fields fs' hd hf hlf ?_
+      intro q hq
       rw [lowerFields_keys hlf]
       have hall : (d.all fun f => fields.any fun x => x.fst == f.fst) = true := by
         cases hx : (d.all fun f => fields.any fun x => x.fst == f.fst)
@@ -1113,22 +1339,40 @@ theorem snd_e {cx : LCtx} {p : Program} {n : Nat} (hC : Ctx cx p) (ih : Snd cx p
       have := List.all_eq_true.mp hall q hq
       obtain ⟨x, hx, hxq⟩ := List.any_eq_true.mp this
       exact List.mem_map.mpr ⟨x, hx, beq_iff_eq.mp hxq⟩
-    have hsome := hpres q.1 (Or.inr hq1)
-    obtain ⟨w, hw⟩ := Option.isSome_iff_exists.mp hsome
-    exact ⟨w, hw, hinv.2 q.1 w hw q (findTy_of_nodup hnd hq)⟩
+    · -- with `...source`s
+      simp only [Option.some.injEq, Prod.mk.injEq] at hl
+      obtain ⟨rfl, rfl⟩ := hl
+      rename_i d hd _ _ _ extra hexp hchk _ fs' hlf
+      simp only [Bool.or_eq_true, not_or, Bool.not_eq_true, Bool.not_eq_eq_eq_not, Bool.not_true, Bool.not_false] at hchk
+      obtain ⟨hlx, hfx⟩ := expandSources_lower (cx := cx.withRet rt)
+        (fun n sd h => hC.hSnd n sd (hC.hS n sd h)) sources [] extra hexp
+      refine tail d (fields ++ extra.map (fun x => (x.1, x.2.1))) _ hd (by rw [fragFields_append, hf, hfx]; rfl)
+        (lowerFields_append hlf hlx) ?_
+      intro q hq
+      have hall : (d.all fun f => (fields.any fun x => x.fst == f.fst) || extra.any fun x => x.fst == f.fst) = true := by
+        cases hx : (d.all fun f => (fields.any fun x => x.fst == f.fst) || extra.any fun x => x.fst == f.fst)
+        · exact absurd hx hchk.2
+        · rfl
+      have := List.all_eq_true.mp hall q hq
+      simp only [Bool.or_eq_true, List.any_eq_true] at this
+      simp only [List.map_append, List.mem_append, lowerFields_keys hlf, List.map_map]
+      rcases this with ⟨x, hx, hxq⟩ | ⟨x, hx, hxq⟩
+      · exact Or.inl (List.mem_map.mpr ⟨x, hx, beq_iff_eq.mp hxq⟩)
+      · exact Or.inr (List.mem_map.mpr ⟨x, hx, beq_iff_eq.mp hxq⟩)
   | mtch scrut arms =>
     inv_low hl
     simp only [Option.some.injEq, Prod.mk.injEq] at hl
     obtain ⟨rfl, rfl⟩ := hl
-    rename_i _ _ _ _ _ scrut' st0 hscrut _ _ stF ty arms' harms _
+    rename_i _ scan hscan _ _ scrut' st0 hscrut _ _ stF ty arms' harms hmiss
     simp only [fragE, Bool.and_eq_true] at hf
     obtain ⟨⟨hfs, hfa⟩, hend⟩ := hf
+    rw [patsOfE_map] at hscan hmiss hend
     have ihs := ih.e rt sc scrut scrut' st0 env log hfs hscrut hrt henv
     simp only [evalExpr]
     res_cases ihs of evalExpr _ _ _ _ _
     rename_i v l
     have hpl := armsE_patsLow arms st0 none stF (some ty) arms' harms hfa
-    have ihsel := ih.sel rt sc st0 _ _ env l v 0 hpl (total_of_frag hpl (by rw [← patsOfE_map]; exact hend) ihs) hrt henv
+    have ihsel := ih.sel rt sc st0 _ _ _ env l v 0 hpl (total_of_frag (cx := cx.withRet rt) hC.hE hC.hEnd hpl hend hscan hmiss ihs) hrt henv
     res_cases ihsel of selectArm _ _ _ _ _ _ _
     rename_i j l'
     obtain ⟨i, pat', rfl, hi, hbind⟩ := ihsel
@@ -1278,15 +1522,16 @@ theorem snd_s {cx : LCtx} {p : Program} {n : Nat} (hC : Ctx cx p) (ih : Snd cx p
     inv_low hl
     simp only [Option.some.injEq, Prod.mk.injEq] at hl
     obtain ⟨rfl, rfl⟩ := hl
-    rename_i _ _ _ _ _ scrut' st0 hscrut _ _ stF arms' harms _
+    rename_i _ scan hscan _ _ scrut' st0 hscrut _ _ stF arms' harms hmiss
     simp only [fragS, Bool.and_eq_true] at hf
     obtain ⟨⟨hfs, hfa⟩, hend⟩ := hf
+    rw [patsOfS_map] at hscan hmiss hend
     have ihs := ih.e rt sc scrut scrut' st0 env log hfs hscrut hrt henv
     simp only [evalStmt]
     res_cases ihs of evalExpr _ _ _ _ _
     rename_i v l
     have hpl := armsS_patsLow arms st0 stF arms' harms hfa
-    have ihsel := ih.sel rt sc st0 _ _ env l v 0 hpl (total_of_frag hpl (by rw [← patsOfS_map]; exact hend) ihs) hrt henv
+    have ihsel := ih.sel rt sc st0 _ _ _ env l v 0 hpl (total_of_frag (cx := cx.withRet rt) hC.hE hC.hEnd hpl hend hscan hmiss ihs) hrt henv
     res_cases ihsel of selectArm _ _ _ _ _ _ _
     rename_i j l'
     obtain ⟨i, pat', rfl, hi, hbind⟩ := ihsel
